@@ -9,6 +9,7 @@ pub struct C04;
 
 pub fn run_case(h: &History, ctx: &mut Ctx) -> CaseResult {
     let mut st = init(h)?;
+    ctx.class_if(h.shift > 0, "data_far_from_origin");
     check_wellformed(&st, "the constructor")?;
     let mut seen_unpruned_compose = false;
     let mut structural = 0;
@@ -40,6 +41,7 @@ pub fn run_case(h: &History, ctx: &mut Ctx) -> CaseResult {
             let out = check_function(&st, &inputs, true, &after)?;
             ctx.count("function_checks", 1);
             ctx.count("thin_exempt", out.thin_exempt as u64);
+            ctx.count("inputs_not_judged_rounding", out.rounding_skipped as u64);
         }
     }
     ctx.class_if(st.t.tree.depth() > 64, "path_longer_than_64_edges");
@@ -86,7 +88,7 @@ fn deep_history() -> BoxedStrategy<History> {
                 }
             }
             ops.extend(tail);
-            History { in_dim: 1, out0: 0, ctor: Ctor::New, ops, points: vec![crate::gen::PointSpec::Anchor(0)], anchors: vec![vec![0.0, 0.0, 0.0]] }
+            History { in_dim: 1, out0: 0, ctor: Ctor::New, ops, points: vec![crate::gen::PointSpec::Anchor(0)], anchors: vec![vec![0.0, 0.0, 0.0]], shift: 0 }
         })
         .boxed()
 }
@@ -99,7 +101,7 @@ impl Property for C04 {
         "C04"
     }
     fn rule(&self) -> String {
-        "histories: constructor in {new, from_aff, from_poly with/without else, every schema, generated tree (total/partial)} followed by <= 8 (thorough 16) operations over {apply_func, compose<false>, compose<true> (schema or generated tree, total/partial), infeasible_elimination, reduce, tree+tree, tree-tree (4 ownership variants), neg, tree+-aff, aff+-tree} with arguments made dimension-compatible with the model's tracked output dimension; 1 case in 1500 is a one-dimensional network of 66-96 pruned ReLU layers (paths longer than 64 edges); after every step the C04 invariant (column counts, common terminal output dimension, rows allowed by K, leaf <=> no children, link invariants) is checked on the raw arena, every step must return without panic, and while the reference function is tracked the function is compared too. Non-trivial = a pruning op after an unpruned composition or on a partial tree/operand AND >= 3 structure-changing ops; distinct = distinct serialised histories".into()
+        "histories: constructor in {new, from_aff, from_poly with/without else, every schema, generated tree (total/partial)} followed by <= 8 (thorough 16) operations over {apply_func, compose<false>, compose<true> (schema or generated tree, total/partial), infeasible_elimination, reduce, tree+tree, tree-tree (4 ownership variants), neg, tree+-aff, aff+-tree} with arguments made dimension-compatible with the model's tracked output dimension; 1 case in 1500 is a one-dimensional network of 66-96 pruned ReLU layers (paths longer than 64 edges); after every step the C04 invariant (column counts, common terminal output dimension, rows allowed by K, leaf <=> no children, link invariants) is checked on the raw arena, every step must return without panic, and while the reference function is tracked the function is compared too. Non-trivial = a pruning op after an unpruned composition or on a partial tree/operand AND >= 3 structure-changing ops; distinct = distinct serialised histories; 1 history in 25 has its input-space data translated by 2^20..2^30 (data far from the origin)".into()
     }
     fn assumptions(&self) -> Vec<String> {
         vec![
